@@ -22,7 +22,7 @@ import (
 	"verif/harness/internal/ref/txref"
 )
 
-const ruleC12 = "offered sets of 1-12 unspent outputs over 1-3 owners (coins/hours/ages incl. zero-hour outputs, equal amounts, totals < 2^62), 1-4 destinations (may equal an owner or the change address, amounts aimed at: a single output's value, the exact total, total+1, small), manual hours (incl. exactly the spendable amount +-1) or auto-share hours with share in {0, 0.5, 1, random 2-digit decimals}, explicit or automatic change address; invalid requests (duplicate receivers, null address, zero coins, bad type/mode/share); oracle: on success the transaction is well formed and passes the unsigned hard rules of the reference model, spends distinct offered outputs, pays the first len(To) outputs as requested, change = inputs - requested to the documented address, auto hours sum to floor(share*remaining) (or remaining after the documented fallback), burn >= ceil(in/burn factor); on failure the error is user-level and 'insufficient' only if the whole offered set cannot cover the request; non-trivial = a change output exists, or an extra input was added, or construction failed for a valid request; distinct by request+offer"
+const ruleC12 = "offered sets of 1-12 unspent outputs over 1-3 owners (coins/hours/ages incl. zero-hour outputs, equal amounts, totals < 2^62), 1-4 destinations (may equal an owner or the change address, amounts aimed at: a single output's value, the exact total, total+1, small), manual hours (incl. exactly the spendable amount +-1) or auto-share hours with share in {0, 0.5, 1, random 2-digit decimals} (1 case in 10 aimed at a whole-numbered exact product share x remaining), explicit or automatic change address; invalid requests (duplicate receivers, null address, zero coins, bad type/mode/share); oracle: on success the transaction is well formed and passes the unsigned hard rules of the reference model, spends distinct offered outputs, pays the first len(To) outputs as requested, change = inputs - requested to the documented address, auto hours sum to floor(share*remaining) (or remaining after the documented fallback), burn >= ceil(in/burn factor); on failure the error is user-level and 'insufficient' only if the whole offered set cannot cover the request; non-trivial = a change output exists, or an extra input was added, or construction failed for a valid request; distinct by request+offer"
 
 type createCase struct {
 	auxs     coin.AddressUxOuts
@@ -65,9 +65,42 @@ func genTwinCase(t *rapid.T) createCase {
 	return c
 }
 
+// genShareExactCase aims at automatic hours whose exact value share x remaining is a whole number: one offered output
+// whose hours leave a multiple of 100 after the burn, and a share factor with two decimals.  Any arithmetic that is not
+// exact decimal arithmetic (binary floating point: 0.29 x 100 = 28.999...) comes out one hour short there.
+func genShareExactCase(t *rapid.T) createCase {
+	var c createCase
+	c.auxs = coin.AddressUxOuts{}
+	c.headTime = rapid.Uint64Range(1<<20, 1<<32).Draw(t, "head")
+	owner := gen.KeyN(rapid.IntRange(0, 2).Draw(t, "owner"))
+	burn := uint64(params.UserVerifyTxn.BurnFactor)
+	rem := 100 * uint64(rapid.IntRange(1, 5000).Draw(t, "rem100"))
+	hours := rem * burn / (burn - 1)
+	for hours-(hours+burn-1)/burn < rem {
+		hours++
+	}
+	if hours-(hours+burn-1)/burn != rem {
+		hours = rem // (not reachable exactly; an ordinary case then)
+	}
+	coins := uint64(1000000) * uint64(rapid.IntRange(2, 1000).Draw(t, "coins"))
+	ux := coin.UxOut{Head: coin.UxHead{Time: c.headTime, BkSeq: 5}, Body: coin.UxBody{SrcTransaction: gen.NonNullSHA(t, "src"), Address: owner.Addr, Coins: coins, Hours: hours}}
+	c.auxs[owner.Addr] = coin.UxArray{ux}
+	c.all = []coin.UxOut{ux}
+	c.p.HoursSelection.Type = transaction.HoursSelectionTypeAuto
+	c.p.HoursSelection.Mode = transaction.HoursSelectionModeShare
+	d := decimal.New(int64(rapid.IntRange(1, 99).Draw(t, "share100")), -2)
+	c.p.HoursSelection.ShareFactor = &d
+	c.p.To = []coin.TransactionOutput{{Address: gen.KeyN(5).Addr, Coins: coins / 2}}
+	c.desc = "share exact " + d.String()
+	return c
+}
+
 func genCreateCase(t *rapid.T) createCase {
 	if rapid.IntRange(0, 9).Draw(t, "twin") == 0 {
 		return genTwinCase(t)
+	}
+	if rapid.IntRange(0, 9).Draw(t, "share_exact") == 5 {
+		return genShareExactCase(t)
 	}
 	var c createCase
 	c.auxs = coin.AddressUxOuts{}
